@@ -18,6 +18,9 @@
 //   fwdinv <d>                  mj_compareFwdInv -> "2 fwdinv0 fwdinv1"
 //   eqrows <d> J|pos            first THREE rows (translation residual) of every equality constraint, in equality order:
 //                               J: rows of efc_J densified to nv columns (dense or sparse storage);  pos: efc_pos
+//   asleep <d>                  one 0/1 per kinematic tree: tree_asleep >= 0
+//   ldcheck <d>                 factorisation identities over ALL dofs: max |L'DL - M| (M = mj_fullM), max |qLDiagInv * D - 1|,
+//                               max |mj_solveM(mj_mulM(e_i)) - e_i|
 //   jacdif <d> <b1> <b2> <sparse> x1 y1 z1 x2 y2 z2
 //                               white box: mj_jacDifPair(b1, b2, p1, p2) -> jacdifp (3 x nv) then jacdifr (3 x nv), scattered
 //                               to dense through the returned chain; entries the function did not write come out as nan
@@ -48,7 +51,7 @@ static bool extra(const std::vector<std::string>& t, const std::vector<std::stri
   auto I = [&](size_t k) { if (k >= t.size()) mk_die("missing argument for " + op); return atoi(t[k].c_str()); };
   auto F = [&](size_t k) { if (k >= t.size()) mk_die("missing argument for " + op); return drv_num(t[k]); };
   static const char* mine[] = {"quatmat", "jac", "jacpt", "jacsp", "jacdot", "objvel", "fullm", "mulm", "solvem", "reconld",
-                               "rne", "intpos", "diffpos", "stepacc", "efc", "fwdinv", "eqrows", "jacdif", nullptr};
+                               "rne", "intpos", "diffpos", "stepacc", "efc", "fwdinv", "eqrows", "jacdif", "asleep", "ldcheck", nullptr};
   bool is_mine = false;
   for (const char** p = mine; *p; p++) if (op == *p) is_mine = true;
   if (!is_mine) return false;
@@ -201,6 +204,33 @@ static bool extra(const std::vector<std::string>& t, const std::vector<std::stri
       out[3 * nv + r * nv + col] = jdr[r * NV + c];
     }
     HX_END; pv(out); return true;
+  }
+  if (op == "asleep") {
+    std::vector<mjtNum> out;
+    for (int k = 0; k < m->ntree; k++) out.push_back(d->tree_asleep[k] >= 0 ? 1 : 0);
+    HX_END; pv(out); return true;
+  }
+  if (op == "ldcheck") {
+    std::vector<mjtNum> L(nv * nv, 0), M(nv * nv + 1, 0), D(nv, 0);
+    mj_fullM(m, d, M.data());
+    mjtNum e1 = 0, e2 = 0, e3 = 0;
+    for (int r = 0; r < nv; r++) {
+      int adr = m->M_rowadr[r], nnz = m->M_rownnz[r];
+      for (int k = 0; k < nnz - 1; k++) L[r * nv + m->M_colind[adr + k]] = d->qLD[adr + k];
+      L[r * nv + r] = 1; D[r] = d->qLD[adr + nnz - 1];
+      e2 = mju_max(e2, fabs(d->qLDiagInv[r] * D[r] - 1));
+    }
+    for (int a = 0; a < nv; a++) for (int b = 0; b < nv; b++) {
+      mjtNum acc = 0;
+      for (int k = 0; k < nv; k++) acc += L[k * nv + a] * D[k] * L[k * nv + b];
+      e1 = mju_max(e1, fabs(acc - M[a * nv + b]));
+    }
+    for (int i = 0; i < nv; i++) {
+      std::vector<mjtNum> e(nv, 0), y(nv, 0), x(nv, 0);
+      e[i] = 1; mj_mulM(m, d, y.data(), e.data()); mj_solveM(m, d, x.data(), y.data(), 1);
+      for (int k = 0; k < nv; k++) e3 = mju_max(e3, fabs(x[k] - e[k]));
+    }
+    HX_END; pv({e1, e2, e3}); return true;
   }
   if (op == "fwdinv") {
     mj_compareFwdInv(m, d);
